@@ -49,8 +49,18 @@ def check(rep):
     files = [(n, d) for n, d in readcheck.canned() if len(d) < 6000 and not n.endswith(".m4s")]
     for name, r, _ in readcheck.valid_files(rng, 6 if quick else 40):
         files.append((name, bytes(r.data)))
-    # a truncated file: I/O errors interleaved with successes
-    files.append(("truncated", files[-1][1][:-7]))
+    # truncated files: I/O errors (after the stream has moved) interleaved with successes
+    for cut in (3, 7, 20, 45):
+        files.append(("truncated%d" % cut, files[-1][1][:-cut]))
+    # fragmented movies, one of them with a track fragment that names a track the movie does not have
+    import isogen
+    tr2 = [{"id": 1, "kind": "avc", "ts": 1000}, {"id": 2, "kind": "aac", "ts": 48000}]
+    for orphan in (False, True):
+        fr = [[{"track_id": 1, "base": "moof", "tfhd_dur": None, "tfdt": 0, "durations": [10, 10], "sizes": [3, 4], "cts": None},
+               {"track_id": 7 if orphan else 2, "base": "moof", "tfhd_dur": 1024, "tfdt": 0, "durations": None, "sizes": [2, 2], "cts": None}]]
+        init, fin = isogen.build_fragmented(tr2, fr, trex_dur=0)
+        media, _ = fin(len(init))
+        files.append(("fragmented_orphan" if orphan else "fragmented", init + media))
     fails, ties = [], []
     stats = {"files": len(files), "schedules": 0, "calls": 0, "failing_calls": 0, "mux_histories": 0}
     profile = "debug"
@@ -72,6 +82,16 @@ def check(rep):
                 calls = calls + calls[::-1]
             sched_cases.append({"data": data, "calls": calls})
             smeta.append((name, data, calls))
+        # crafted: a good read of k, a failing read, then the neighbours of k (a cached position or table would show here)
+        for tid in tids[:-2]:
+            n = counts.get(tid, 0)
+            calls = []
+            for k in range(1, min(n, 12) + 1):
+                for bad in (0, n + 1, 2 ** 32 - 1):
+                    calls += [["rs", tid, k], ["rs", tid, bad], ["rs", tid, k + 1], ["off", tid, k], ["rs", 99, 1], ["rs", tid, k]]
+            if calls:
+                sched_cases.append({"data": data, "calls": calls})
+                smeta.append((name, data, calls))
     res = readcheck.run_both(sched_cases, profile, want_model=False)
     # fresh-reader baselines for every distinct call of every file
     distinct = {}
@@ -101,18 +121,26 @@ def check(rep):
     # opening the same bytes twice (different processes: hash seeds differ)
     lines = [readcheck.impl_case(d, dbg=True) for _, d in files]
     a = common.harness_run("run", profile, lines, shards=2)
-    b = common.harness_run("run", "release", lines, shards=3)
-    for (name, d), x, y in zip(files, a, b):
+    runs_b = [common.harness_run("run", "release" if i % 2 else "debug", lines, shards=2 + i) for i in range(5)]
+    for fi, ((name, d), x) in enumerate(zip(files, a)):
+      for rb in runs_b:
+        y = rb[fi]
         dx, dy = json.loads(x), json.loads(y)
         if dx.get("open") != dy.get("open"):
             fails.append(("open_twice_%d" % len(fails), {"kind": "input", "what": "two opens of the same bytes differ in outcome", "case": name, "file": d.hex()}))
+            break
         elif dx.get("open") == "ok":
+            bad = False
             for k in ("ftyp", "moov", "moofs", "emsgs"):
                 if canon(dx["dbg"][k]) != canon(dy["dbg"][k]):
                     fails.append(("open_twice_%d" % len(fails), {"kind": "input", "what": "two opens of the same bytes give different %s structures" % k, "case": name, "file": d.hex()}))
+                    bad = True
                     break
-            if dx.get("calls") != dy.get("calls") or dx.get("tracks") != dy.get("tracks"):
+            if not bad and (dx.get("calls") != dy.get("calls") or dx.get("tracks") != dy.get("tracks")):
                 fails.append(("open_twice_%d" % len(fails), {"kind": "input", "what": "two opens of the same bytes give different accessor/sample results", "case": name, "file": d.hex()}))
+                bad = True
+            if bad:
+                break
     # muxing the same history in separate processes
     hs = [muxgen.random_history(rng, bad=0.05, max_samples=40) for _ in range(40 if quick else 400)] + muxgen.exhaustive_small(limit=60)
     stats["mux_histories"] = len(hs)
